@@ -19,6 +19,10 @@ Clauses (property C09):
                object was destructed: a failing or self-removing heart beat does not disturb the round of the others
   turns        within one loop iteration a user gets at most ONE command served (process_input once, the command once):
                a user with a backlog cannot keep the others waiting
+  isolation    a failing task of ONE user does not keep the OTHERS waiting: once a complete line is at the head of its
+               user's input (delivered, and the user's previous line served) it is served within `users + 2` loop
+               iterations - each other user can abort at most one iteration with an uncaught error before the rotating
+               start slot has moved past him (C12 owns the exact fairness statement; this is the failure-isolation bound)
   preload      every file the master's epilog() names is handed to preload(), in order, also after one failed to load
   disconnect   the driver tells a user object `net_dead` only when that user's own client went away: events of other
                connections (hang-ups, errors, accepts arriving in the same poll) never cost a user its connection
@@ -35,6 +39,7 @@ structure Expect where
   settle : Bool := true                  -- the history ends with enough idle cycles / ticks to drain everything
   coCutoff : Nat := 0                    -- cycle of the second-to-last tick: call_outs scheduled later may stay pending
   preloads : List String := []           -- files epilog() hands to preload_objects(), in order
+  sentAt : List (Nat × Nat × String) := []   -- (cycle of the poll that delivered it, client, text) for every packet
 
 def isCrash : Ev → Bool
   | .crash _ => true
@@ -73,7 +78,7 @@ def hbExpected : Option Oid → List Oid → List Ev → List Oid
       (match cur with
        | some o => hbExpected none (on.erase o) es
        | none => hbExpected none on es)
-    | .tCmd _ _ | .tInput _ _ | .tIt _ _ _ | .tPrompt _ | .tEpilog | .tPreload _ | .tCo _ _ | .tReset _ | .tCleanup _ | .tConnect _ | .tLogon _ | .cycle _ => hbExpected none on es
+    | .tCmd _ _ | .tInput _ _ | .tIt _ _ _ | .tPrompt _ | .tSnoop _ | .tEpilog | .tPreload _ | .tCo _ _ | .tReset _ | .tCleanup _ | .tConnect _ | .tLogon _ | .cycle _ => hbExpected none on es
     | _ => hbExpected cur on es
 
 def finalHbs (es : List Ev) : Option (List String) :=
@@ -220,6 +225,44 @@ def clausePreload (x : Expect) (es : List Ev) : List String :=
   if preloaded (beforeStart es) == x.preloads then []
   else [s!"preload loaded={preloaded (beforeStart es)} expected={x.preloads}"]
 
+/-- cycle in which each complete, non-empty line of a client was delivered (the packet that carried its line end) -/
+def lineCyclesAux : String → List (Nat × String) → List Nat
+  | _, [] => []
+  | part, (cy, t) :: rest =>
+    let pieces := (part ++ t).splitOn "/"
+    (pieces.dropLast.filter (· ≠ "")).map (fun _ => cy) ++ lineCyclesAux (pieces.getLastD "") rest
+
+def lineCycles (x : Expect) (client : Nat) : List Nat :=
+  lineCyclesAux "" ((x.sentAt.filter (fun e => e.2.1 == client)).map (fun e => (e.1, e.2.2)))
+
+/-- loop iteration in which each line of user `u` reached the user object (process_input or an input_to callback) -/
+def servedCycles (u : Oid) : Nat → List Ev → List Nat
+  | _, [] => []
+  | _, .cycle k :: es => servedCycles u k es
+  | cy, .tInput o _ :: es => if o = u then cy :: servedCycles u cy es else servedCycles u cy es
+  | cy, .tIt o _ _ :: es => if o = u then cy :: servedCycles u cy es else servedCycles u cy es
+  | cy, _ :: es => servedCycles u cy es
+
+/-- the longest wait of a line at the head of its user's input: (line number, wait) of the first line over `bound` -/
+def lateLine (bound : Nat) : Nat → Nat → List Nat → List Nat → Option (Nat × Nat)
+  | _, _, [], _ => none
+  | _, _, _, [] => none
+  | j, prev, s :: ss, t :: ts =>
+    let head := max s (prev + 1)
+    if t > head + bound then some (j, t - head) else lateLine bound (j + 1) t ss ts
+
+/-- clause `isolation` -/
+def clauseIsolation (x : Expect) (es : List Ev) : List String :=
+  let clients := (if x.console then [0] else []) ++ x.conns
+  let bound := clients.length + 2
+  (clients.zip (usersOfConnects es)).filterMap (fun (c, ou) =>
+    match ou with
+    | none => none
+    | some u =>
+      match lateLine bound 1 0 (lineCycles x c) (servedCycles u 0 es) with
+      | some (j, w) => some s!"isolation {u.name} line {j} waited {w} iterations at the head of its input (bound {bound})"
+      | none => none)
+
 def judgeEv (x : Expect) (es : List Ev) : List String :=
   if !(clauseCrash es).isEmpty then clauseCrash es else
   let ex := hasExit es
@@ -259,6 +302,6 @@ def judgeEv (x : Expect) (es : List Ev) : List String :=
     | some n =>
       let live := (liveUsers [] es).length
       if n > live then [s!"leaked-conn slots={n} live-users={live}"] else []
-  v1 ++ v2 ++ v3 ++ v4 ++ v5 ++ v6 ++ v7 ++ clauseRefs es ++ clauseDisconnect x es ++ clauseHbSchedule es ++ clauseTurns es ++ clausePreload x es
+  v1 ++ v2 ++ v3 ++ v4 ++ v5 ++ v6 ++ v7 ++ clauseRefs es ++ clauseDisconnect x es ++ clauseHbSchedule es ++ clauseTurns es ++ clausePreload x es ++ clauseIsolation x es
 
 end NV.C09
